@@ -198,6 +198,10 @@ def u_ctl():
     add("ctl-wideor", ["a: Qint[6]", "b: Qint[6]"], "Qint[6]", "return a if b != 0 else 1")
     add("ctl-wideor", ["a: Qint[5]", "g: bool"], "bool", "return (g and a != 0) or (not g and a == 0)")
     add("ctl-wideor", ["a: Qint[7]", "g: bool"], "bool", "return g or a != 0")
+    # local variables whose names start like the return symbol
+    add("ctl-retname", ["a: bool", "b: bool", "c: bool"], "bool", ["_retval = a and b", "return _retval != c"])
+    add("ctl-retname", ["a: %s" % Q2, "b: %s" % Q2], Q2, ["_ret_tmp = a + b", "return _ret_tmp ^ a"])
+    add("ctl-retname", ["a: bool", "b: bool"], "Tuple[bool, bool]", ["_return = a or b", "ret = a and b", "return (_return, ret)"])
     # aliases: two names for one value
     add("ctl-alias", ["a: bool", "b: bool", "c: bool"], "bool", ["last = a", "return (last ^ a) or (b and c)"])
     add("ctl-alias", ["a: %s" % Q2, "b: %s" % Q2], Q2, ["s = a", "s += a", "return s + b"])
